@@ -178,6 +178,8 @@ def bulk_body(cfg, a, la, c, lc, t, l, q):
         return False
     if not ref_failed:
         reach("bulk_ok")
+    if not build.inv1_all(g):
+        return False                       # canonical timelines, no run object shared between two pairs
     return build.same_state_at(g, h, q)
 
 
